@@ -40,7 +40,7 @@ Definition cstep (conv : conv_fn memdict) (c : cctx) (o : cop) : outcome cctx :=
   | CConfigSetInt name v => drop_rc (config_set_int_c c name v)
   | CUserAdd p b => drop_rc (userphrase_add c p b)
   | CUserRemove p b => drop_rc (userphrase_remove c p b)
-  | CEditor o => match step md_ops lay_ops conv (cx_ed c) o with
+  | CEditor o => match step mdf_ops lay_ops conv (cx_ed c) o with
                  | Ok e => Ok (with_ed c e)
                  | Err x => Err x | Panic s => Panic s | OutOfFuel => OutOfFuel
                  end
